@@ -111,7 +111,7 @@ add("C08", "TestC08", "exploration",
     RAPID + " + enumerated step-length ladder", "DESIGN.md §4 C08")
 
 add("C20", "TestC20", "exploration",
-    dict(cases=6000, shards=8), dict(cases=160000, shards=16, timeout_s=3000),
+    dict(cases=4000, shards=8), dict(cases=160000, shards=16, timeout_s=3000),
     "cases as C01 in every layout (current and, for half of the cases, one of 8 legacy layouts), 1/10 rejected (out-of-order) inputs; scribble pattern all-0x00 / all-0xff / pseudo-random; non-trivial = >= 2 keys with values or stored prefixes",
     "Before/after snapshots and a differential against a pristine twin: NewSlimTrie leaves keys, values and the Opt struct (pointer identities and pointees) unchanged, also for rejected input; Unmarshal leaves its input buffer unchanged and overwriting the buffer afterwards changes no answer (lookups on Q(keys), scans, Stat, String, Marshal); overwriting Marshal output changes neither later answers nor later Marshal output; two Marshal results do not share memory.",
     "Trusted: legacy writers for the legacy layouts.", "snapshot + differential property-based testing (rapid)", "DESIGN.md §4 C20")
